@@ -5,14 +5,20 @@
    is proved per run for n = 1..5 (6 in the thorough tier) by Base/TrigMat.mcheck_eq on the traced
    real gate list: BOUNDED INSTANCES, generated obligations, not in this file.
 
+   QFT at matrix level, ALL n >= 1: [qft_ok_state_vector] / [qft_ok_complex] -- applying the gate matrices
+   (Base/Mat.v embed, mmul) of the ladder one after the other to the basis column |x> gives the DFT column.
+   The product-state rules [pstep] are no longer trusted: [pstep_rules_agree_with_matrices].
+   What remains outside: (A B) v = A (B v) for the list matrices (so the statement is about state-vector
+   simulation, not about the product matrix circ_mat), and that the real gate matrices are
+   H = [[h,h],[h,-h]], CU1 = diag(1,1,1,phi), SWAP: checked per run by TrigMat obligations (k <= 6) and numerically.
+
    NOT PROVED (named honestly):
-   - qft_ok for all n at MATRIX level (the all-n theorem qft_product_state is about the product-state
-     semantics [pstep] of Model.v, whose rules are trusted);
    - ehrlich_enumerates for all n (here: every 1 <= k < n <= 10, by computation);
    - unary_tree_ok, hw_encoder_ok, binary-encoder amplitudes (angles are acos/atan2/norms of the data;
      covered by the data-level tests of the harness, tolerance 1e-10). *)
-From Coq Require Import List Bool Arith Lia Ring ZArith.
-From QV Require Import C20.Model C20.Proofs C20.ProofsQFT.
+From Coq Require Import List Bool Arith Lia Ring ZArith Reals.
+From Coquelicot Require Import Complex.
+From QV Require Import Base.Mat Base.Cis C20.Model C20.Proofs C20.ProofsQFT C20.ProofsPS C20.ProofsQFTMat C20.QFTComplex.
 Import ListNotations.
 
 (* ---------------------------------------------------------------- comp_basis_encoder (all n, all bit strings) *)
@@ -77,6 +83,54 @@ Print Assumptions qft_product_is_dft.
 
 Example qphase_is_value : qphase 4 [true; false; true; true] 0 = 11 /\ qphase 4 [true; false; true; true] 2 = 12.
 Proof. split; reflexivity. Qed.
+
+(* ---------------------------------------------------------------- the product-state rules are sound for the MATRICES *)
+Section Matrices.
+  Variables (T : Type) (t0 t1 : T) (tadd tmul tsub : T -> T -> T) (topp : T -> T).
+  Hypothesis Tring : ring_theory t0 t1 tadd tmul tsub topp (@eq T).
+  Variables (h : T) (e : nat -> T) (n : nat).
+  Hypothesis e_0 : e 0 = t1.
+  Hypothesis e_add : forall x y, e (x + y) = tmul (e x) (e y).
+  Hypothesis e_half : e (2 ^ (n - 1)) = topp t1.
+
+  (* for every gate on arbitrary (distinct, in-range) qubits of an n-qubit register: the 2^n x 2^n matrix
+     [embed n qs M] of Base/Mat.v times the column vector of a product state is the column vector of the
+     product state computed by [pstep] *)
+  Theorem pstep_rules_agree_with_matrices : forall f g f',
+    wf_gate n g -> pstep n f g = Some f' ->
+    mmul (KT T t0 t1 tadd tmul) (gate_mat T t0 t1 tadd tmul topp h e n g)
+         (col T (pvec T t0 t1 tmul n (amps_of T t0 t1 tmul h e n f)))
+    = col T (pvec T t0 t1 tmul n (amps_of T t0 t1 tmul h e n f')).
+  Proof. exact (pstep_sound T t0 t1 tadd tmul tsub topp Tring h e n e_0 e_add e_half). Qed.
+End Matrices.
+Print Assumptions pstep_rules_agree_with_matrices.
+
+(* QFT(n)|x> = h^n sum_y e(X Y)|y>  for ALL n >= 1, over any commutative ring with h and a character e *)
+Theorem qft_ok_state_vector :
+  forall (T : Type) (t0 t1 : T) (tadd tmul tsub : T -> T -> T) (topp : T -> T),
+  ring_theory t0 t1 tadd tmul tsub topp (@eq T) ->
+  forall (h : T) (e : nat -> T),
+  e 0 = t1 -> (forall a b, e (a + b) = tmul (e a) (e b)) ->
+  forall x : bits, let n := length x in
+  1 <= n -> e (2 ^ (n - 1)) = topp t1 ->
+  apply_gates T t0 t1 tadd tmul topp h e n (qft n true)
+              (col T (bvec T n (fun c => if beqb x c then t1 else t0)))
+  = col T (bvec T n (fun y => tmul (tpow T t1 tmul h n) (e (qphase n x 0 * qphase n y 0)))).
+Proof. exact qft_matrix_column. Qed.
+Print Assumptions qft_ok_state_vector.
+
+(* the complex instance: h = 1/sqrt2, e k = exp(2 pi i k / 2^n); CU1's phase e(2^(n-1-k)) is exp(i pi / 2^k) *)
+Theorem qft_ok_complex : forall x : bits, let n := length x in
+  1 <= n ->
+  apply_gates C (RtoC 0) (RtoC 1) Cplus Cmult Copp hC (ephase n) n (qft n true)
+              (col C (bvec C n (fun c => if beqb x c then RtoC 1 else RtoC 0)))
+  = col C (bvec C n (fun y => Cmult (tpow C (RtoC 1) Cmult hC n) (ephase n (qphase n x 0 * qphase n y 0)))).
+Proof. exact qft_matrix_column_C. Qed.
+Print Assumptions qft_ok_complex.
+
+Theorem qft_cu1_phase : forall n k, k < n -> ephase n (2 ^ (n - 1 - k)) = cis (PI / 2 ^ k).
+Proof. exact ephase_cu1. Qed.
+Print Assumptions qft_cu1_phase.
 
 (* ---------------------------------------------------------------- Ehrlich walk (BOUNDED: n <= 10) *)
 (* for every 1 <= k < n <= 10 the walk started at 1^k 0^(n-k) has binom n k strings, without repetition,
